@@ -4,6 +4,7 @@ import (
 	"bufio"
 	"flag"
 	"fmt"
+	"io/ioutil"
 	"os"
 )
 
@@ -17,6 +18,9 @@ type domain struct {
 
 var domains = map[string]domain{}
 
+// set by -force-conc: domains that have a concurrent mode always use it
+var forceConc bool
+
 func main() {
 	if len(os.Args) < 2 {
 		fmt.Fprintln(os.Stderr, "usage: h <domain> [-seed N -n COUNT | -replay FILE] -out PREFIX")
@@ -28,6 +32,7 @@ func main() {
 	n := fs.Int("n", 1000, "number of generated cases")
 	out := fs.String("out", "out", "output prefix (.cases, .impl)")
 	replay := fs.String("replay", "", "file of cases (full or raw) to run instead of / before generating")
+	fs.BoolVar(&forceConc, "force-conc", false, "generate only cases with a concurrent batch (used with the -race build)")
 	fs.Parse(os.Args[2:])
 	silence()
 	d, ok := domains[dom]
@@ -38,6 +43,11 @@ func main() {
 	o := NewOut(*out)
 	defer o.Close()
 	emit := func(raw Sx) {
+		// journal the case before running it: a fatal runtime error (concurrent map write, deadlock) kills the
+		// process, and the case that did it must be attributable
+		if l, ok := raw.(Ls); ok {
+			ioutil.WriteFile(*out+".journal", []byte(SxString(L(A(dom), append(Ls{Ls{}}, l...)))+"\n"), 0644)
+		}
 		full, obs := d.run(raw)
 		o.Emit(L(A(dom), full), obs)
 	}
